@@ -152,6 +152,13 @@ def case_fn(case):
     x = np.asarray(idnt["tip position"], dtype=float)
     y = np.asarray(idnt["force"], dtype=float)
     segm = np.asarray(idnt["segment"]) == seg
+    missing = [c for c in ("fit", "fit residuals", "fit range")
+               if c not in idnt]
+    if missing:
+        viol("unsuccessful-nan" if not fp.get("success") else "fit-column",
+             "columns-missing", f"after fit_model the columns {missing} do "
+             f"not exist (success={fp.get('success')})")
+        return out, ("columns-missing", case["range"])
     fit = np.asarray(idnt["fit"], dtype=float)
     res = np.asarray(idnt["fit residuals"], dtype=float)
     rng = np.asarray(idnt["fit range"]).astype(bool)
